@@ -262,7 +262,12 @@ class Gen:
             return {k: [self.arg(depth + 1, hashable) for _ in range(n)]}
         if k == "S":
             n = d(st.integers(0, 3))
-            return {"S": [self.arg(depth + 1, True) for _ in range(n)]}
+            items = []
+            for _ in range(n):
+                x = self.arg(depth + 1, True)
+                if x not in items:  # a set literal holds equal build-time objects once
+                    items.append(x)
+            return {"S": items}
         if k == "D":
             n = d(st.integers(0, 3))
             pairs, seen = [], []
